@@ -147,7 +147,7 @@ def mem_available_gb():
 
 
 def run_kani(ws, crate, harnesses, flags, jobs, timeout_s, out_json, logf, extra=None, mem_gb=None):
-    cmd = ["cargo", "kani", "-p", crate] + KANI_Z + flags + [
+    cmd = ["cargo", "kani", "-p", crate] + registry.CRATE_ARGS.get(crate, []) + KANI_Z + flags + [
         "--export-json", out_json, "--harness-timeout", "%ds" % timeout_s,
         "--output-format=terse", "--exact"]
     for h in harnesses:
@@ -285,7 +285,8 @@ def replay_refuted(ws, vcopy, ob, flags, logdir, reason, failing):
     rc, wall, cmd = run_kani(ws, ob["crate"], [ob["harness"]], flags, 1, ob.get("timeout", 900), out_json, logf, extra=extra,
                              mem_gb=ob.get("mem_gb", 40))
     gen = open(logf).read()
-    blocks = re.findall(r"```\n(.*?)```", gen, flags=re.S)
+    # the generated unit tests, without their doc comments (a multi-line check description breaks the `///` prefix)
+    blocks = re.findall(r"(#\[test\]\nfn kani_concrete_playback_\w+\(\) \{.*?\n\})", gen, flags=re.S)
     native_out, reproduced, test_src = "", False, ""
     # the harness module file of this obligation (copy next to the woven tree)
     parts = ob["harness"].split("::")
